@@ -293,6 +293,33 @@ def closeStepOfCall (c : String) : Option CloseStep :=
   else if c = "ClearFullNeeded" then some .clearFlag
   else none
 
+/-! the incremental-file path of `Sink.Close`: no data travels in the stream; the local WAL
+directory named by the header is renamed into `<id>.tmp/wal-incoming`, its WAL files (with
+their sidecars) are moved up into `<id>.tmp`, the emptied directory is removed, then the
+common tail (writeMeta, sync, rename into place, sync). -/
+
+structure IncDisk where
+  source : Bool            -- the local WAL directory still holds the WAL files
+  tmpHasWals : Bool        -- the WAL files are (somewhere) under <id>.tmp
+  tmpHasMeta : Bool
+  installed : Option Bool  -- final directory exists; `some true` = with WAL files and meta.json
+deriving DecidableEq, Repr
+
+inductive IncStep
+  | moveDirIn | moveFilesUp | removeEmptied | writeMeta | syncTmp | rename | syncRoot
+deriving DecidableEq, Repr
+
+def incSteps : List IncStep := [.moveDirIn, .moveFilesUp, .removeEmptied, .writeMeta, .syncTmp, .rename, .syncRoot]
+
+def applyInc (d : IncDisk) : IncStep → IncDisk
+  | .moveDirIn => { d with source := false, tmpHasWals := true }
+  | .writeMeta => { d with tmpHasMeta := true }
+  | .rename => { d with tmpHasWals := false, tmpHasMeta := false, installed := some (d.tmpHasWals && d.tmpHasMeta) }
+  | _ => d
+
+def incCrashAfter (k : Nat) : IncDisk :=
+  (incSteps.take k).foldl applyInc { source := true, tmpHasWals := false, tmpHasMeta := false, installed := none }
+
 /-! ### transport compression (store/transport.go, internal/rarchive/zstd)
 
 Sender (`NodeTransport.InstallSnapshot` with compression): wire = 8-byte big-endian
